@@ -449,7 +449,7 @@ func (vc *VC) execRegionX(fr *frame, start *ssa.BasicBlock, region map[*ssa.Basi
 				continue
 			}
 			_, isRet := b.Instrs[len(b.Instrs)-1].(*ssa.Return)
-			split := fr.top && vc.dry == 0 && len(ins) > 1 && !isLoopHeader(b) && os.Getenv("GOVC_NOSPLIT") == ""
+			split := fr.top && vc.dry == 0 && len(ins) > 1 && !isLoopHeader(b) && os.Getenv("GOVC_NOSPLIT") == "" && !(vc.contract != nil && vc.contract.NoSplit)
 			// a return block reached over several edges is executed once per edge, and a join block is
 			// split the same way while the budget lasts (bounded path splitting): obligations are then
 			// checked against each incoming state instead of an ite-merged heap, which keeps the incoming
